@@ -357,9 +357,11 @@ _R11 = {
     "BB5": "Added (round 11): BB5 - a pruning test behind a private predicate is evaluated at witness points: an upper bound above the incumbent by however little must be explored (a fixed tolerance prunes improving branches).",
     "GL2": "Added (round 11): GL2 slot-after-growth also through a private slot helper that is handed the table.",
     "RHD": "Added (round 11): RH displaced-from-own-slot takes the slot write on either side of the displacement.",
+    "VOI": "Added (mini-round 12): VO iter-elements - an iterator of the order that yields labels walks pos_to_var (also through a range taken as a slice); the padding of a jump-and-pad smoothing reads such an iterator. DF for the order's tables.",
+    "CPS": "Added (mini-round 12): CP sdd returns - every value the SDD condition returns on a path open to both polarities of the pointer denotes the same thing relative to what the pointer denotes (elements of a collected map over node_iter are read through the closure). DT decides an ite computed on the standard triple under the contract ST proves for Ite::new.",
     "BS": "Added (round 11): BS - a binary search in the methods of a type uses the ordering those methods sort by (a bisection by label over data sorted by Literal's polarity-major order is a stated contradiction).",
 }
-for _pid, _ks in {"C01": ("EDG", "GL2"), "C02": ("RHD",), "C03": ("RNM", "GL2"), "C04": ("RNM", "RHD"), "C05": ("NCC",), "C06": ("UL", "BS"),
-                  "C07": ("EDG", "SPV"), "C08": ("SPV",), "C09": ("UL", "BS"), "C10": ("SPV",), "C12": ("BB5",), "C14": ("NCC",),
-                  "C15": ("UL", "BS"), "C16": ("GL2",), "C17": ("DPL",), "C19": ("DPL", "NCC")}.items():
+for _pid, _ks in {"C01": ("EDG", "GL2"), "C02": ("RHD",), "C03": ("RNM", "GL2", "CPS"), "C04": ("RNM", "RHD"), "C05": ("NCC",), "C06": ("UL", "BS"),
+                  "C07": ("EDG", "SPV"), "C08": ("SPV", "VOI"), "C09": ("UL", "BS"), "C10": ("SPV",), "C12": ("BB5",), "C14": ("NCC",),
+                  "C15": ("UL", "BS"), "C16": ("GL2",), "C17": ("DPL",), "C19": ("DPL", "NCC", "VOI")}.items():
     PROPS[_pid]["explanation"] = PROPS[_pid]["explanation"].rstrip() + " " + " ".join(_R11[k] for k in _ks)
